@@ -1,9 +1,57 @@
-(** C08 — region laws between the results of related calls are decided, for every point of
-    the plane, by the verified scene checker.  Only statements closed by [exact]. *)
+(** C08 — results commute with exact similarity transforms of the plane.
+    Only statements closed by [exact], pins and [Print Assumptions]. *)
 From Coq Require Import QArith List Bool.
 From GB Require Import Slab Scene SlabProofs.
 
+(** mirror / transpose / quarter-turn clauses are region statements: they are decided, for
+    every point of the plane, by the verified scene checker on the transformed run *)
 Theorem C08_law_checker_sound :
   forall (sc : scene) (l : law), check_scene sc l = true ->
   forall p, scene_clear sc p -> eval_law l (member sc p) = true.
 Proof. exact check_scene_sound. Qed.
+
+From GB Require Import Num NumQ Event Outcome FillQueue BoolOp Similarity Cert.
+Import ListNotations.
+
+(** translation and scaling clauses, over exact arithmetic, for ALL inputs: the run on the
+    operands transformed by [x -> k*x + tx], [y -> k*y + ty] ([k > 0]; [k = 1] is a
+    translation, [tx = ty = 0] a scaling) ends the same way as the run on the original
+    operands — same panic site, or both out of budget, or two results of identical structure
+    (same polygons, holes, ring starts and vertex order) whose coordinates correspond under
+    the transform.  Obtained from the abstraction theorem of the whole model
+    (Paramcoq, binary parametricity). *)
+Theorem C08_similarity_covariant :
+  forall k tx ty : Q, 0 < k ->
+  forall (cfg : config) (fuel : nat) (A B : list (FillQueue.polygon NQ)) (op : operation),
+  outcome_sim k tx ty (boolean_operation cfg fuel A B op)
+              (boolean_operation cfg fuel (sim_mpoly k tx ty A) (sim_mpoly k tx ty B) op).
+Proof. exact similarity_covariant. Qed.
+
+Theorem C08_similarity_covariant_all_pairings :
+  forall k tx ty : Q, 0 < k ->
+  forall (cfg : config) (fuel : nat) (A B : operand NQ) (op : operation),
+  outcome_sim k tx ty (boolean cfg fuel A B op)
+              (boolean cfg fuel (sim_operand k tx ty A) (sim_operand k tx ty B) op).
+Proof. exact similarity_covariant_boolean. Qed.
+
+(** what the conclusion says for a normal return *)
+Theorem C08_outcome_sim_ok :
+  forall k tx ty R o', outcome_sim k tx ty (Ok R) o' ->
+  exists R', o' = Ok R' /\ Forall2 (polygon_sim k tx ty) R R'.
+Proof.
+  exact (fun k tx ty R o' =>
+    match o' return outcome_sim k tx ty (Ok R) o' -> exists R', o' = Ok R' /\ Forall2 (polygon_sim k tx ty) R R' with
+    | Ok R' => fun H => ex_intro _ R' (conj eq_refl H)
+    | Panic _ => fun H => match H with end
+    | OutOfFuel => fun H => match H with end
+    end).
+Qed.
+
+(** non-vacuity: a run that goes through the sweep (overlapping operands, a T-junction on a
+    vertical edge), transformed by k = 3, (tx, ty) = (5, -2) *)
+Example C08_example_run :
+  exists R R',
+    boolean_operation release 1000 F2_A F2_B Union = Ok R /\ length R = 2%nat /\
+    boolean_operation release 1000 (sim_mpoly 3 5 (-2) F2_A) (sim_mpoly 3 5 (-2) F2_B) Union = Ok R' /\
+    length R' = 2%nat.
+Proof. vm_compute. eexists; eexists; repeat split. Qed.
